@@ -68,8 +68,11 @@ Section Model.
     | _ => true
     end.
 
-  (* returns the new state and, for Load, the source of the library that is evaluated *)
-  Definition step (s : st) (o : op) : st * option Src :=
+  (* returns the new state and, for Load, what the returned model object is made of: the text of the DEFINITION it
+     carries (parameter table, defaults, limits: core.load_model pairs the module's model_info with the library)
+     and the source of the library that is evaluated.  Two definition texts may generate the same source
+     ([gen] need not be injective): an edit of a default changes the first component only. *)
+  Definition step (s : st) (o : op) : st * option (nat * Src) :=
     match o with
     | EditM t time => (MkSt (MkFile t time) (fc s) (fh s) (fk s) (mcache s) (hcache s) (kcache s) (dlls s), None)
     | EditC t time => (MkSt (fm s) (MkFile t time) (fh s) (fk s) (mcache s) (hcache s) (kcache s) (dlls s), None)
@@ -84,12 +87,12 @@ Section Model.
         let src := gen (fst (fst mc)) (txt (fc s)) (snd hc) (snd kc) in
         let key := (tag src, bits) in
         match lookup key (dlls s) with
-        | Some built => (MkSt (fm s) (fc s) (fh s) (fk s) (Some mc) (Some hc) (Some kc) (dlls s), Some built)
-        | None => (MkSt (fm s) (fc s) (fh s) (fk s) (Some mc) (Some hc) (Some kc) ((key, src) :: dlls s), Some src)
+        | Some built => (MkSt (fm s) (fc s) (fh s) (fk s) (Some mc) (Some hc) (Some kc) (dlls s), Some (fst (fst mc), built))
+        | None => (MkSt (fm s) (fc s) (fh s) (fk s) (Some mc) (Some hc) (Some kc) ((key, src) :: dlls s), Some (fst (fst mc), src))
         end
     end.
 
-  Fixpoint run (s : st) (ops : list op) : st * list (option Src) :=
+  Fixpoint run (s : st) (ops : list op) : st * list (option (nat * Src)) :=
     match ops with
     | [] => (s, [])
     | o :: r => let (s', out) := step s o in let (s'', outs) := run s' r in (s'', out :: outs)
